@@ -168,7 +168,8 @@ impl Optimizer for LM {
             let res_norm_sq = res.dot(&res);
             let new_res_norm_sq = new_res.dot(&new_res);
 
-            let pred_reduction = delta.t_dot(mu * &delta + jtr.data());
+            // the damping term is mu * diag(J^T J), so the predicted reduction has to use it too
+            let pred_reduction = delta.t_dot(mu * (&delta * &jtj.diag()) + jtr.data());
 
             // calculate the gain ratio (actual reduction in error over predicted reduction)
             let rho = (res_norm_sq - new_res_norm_sq) / (0.5 * pred_reduction);
